@@ -485,14 +485,20 @@ func registerStdModels() {
 	// monotonic reading; ext holds seconds since year 1 (symbolic, within +-2^40 of a
 	// fixed epoch so that second arithmetic cannot overflow); nanoseconds are zero.
 	reg("time.Now", func(it *Interp, fr *frame, fn *ssa.Function, args []Value) Value {
-		sec := it.newNondet("time.Now", "int64", 64)
-		base := int64(63900000000) // ~ year 2025 in seconds since year 1
-		c := mkAnd(bvCmp("bvsge", sec, mkInt(base)), bvCmp("bvsle", sec, mkInt(base+(1<<40))))
-		if it.mstate.lastNow != nil {
-			c = mkAnd(c, bvCmp("bvsge", sec, it.mstate.lastNow))
+		var sec *Term
+		if it.mstate.manualClock {
+			// the harness advances the clock explicitly (verifAdvanceClock)
+			sec = it.clockTerm()
+		} else {
+			sec = it.newNondet("time.Now", "int64", 64)
+			base := int64(63900000000) // ~ year 2025 in seconds since year 1
+			c := mkAnd(bvCmp("bvsge", sec, mkInt(base)), bvCmp("bvsle", sec, mkInt(base+(1<<40))))
+			if it.mstate.lastNow != nil {
+				c = mkAnd(c, bvCmp("bvsge", sec, it.mstate.lastNow))
+			}
+			it.ex.assume(c)
+			it.mstate.lastNow = sec
 		}
-		it.ex.assume(c)
-		it.mstate.lastNow = sec
 		loc := it.globalAddr(it.prog.ImportedPackage("time").Var("localLoc"))
 		return Struct{mkBV(64, 0), sec, loc}
 	})
@@ -692,4 +698,12 @@ func init() {
 		}
 		return Tuple{mkInt(int64(len(sl.a))), Iface{}}
 	})
+}
+
+// clockTerm is the manual clock's current reading (seconds since year 1).
+func (it *Interp) clockTerm() *Term {
+	if it.mstate.lastNow == nil {
+		it.mstate.lastNow = mkInt(63900000000)
+	}
+	return it.mstate.lastNow
 }
